@@ -1,5 +1,6 @@
 import ShexerModel.Lemmas.CandLemmas
 import ShexerModel.Lemmas.R1
+import ShexerModel.Lemmas.KeyLemmas
 /-! C02 — a shape holds exactly the features at or above the acceptance threshold.
 
 The comparison operator of the threshold test is regenerated from the AST (`Gen.threshold_keeps`);
@@ -47,6 +48,65 @@ theorem candidates_exact (cfg : Config) (N : Nat) (inv : Bool) (pp : PropProfile
 theorem candidates_pass (cfg : Config) (N : Nat) (inv : Bool) (pp : PropProfile) (s : Stmt)
     (h : s ∈ candidates cfg N inv pp) : s.n * cfg.thDen ≥ cfg.thNum * N :=
   (passes_iff cfg N s.n).mp (candidate_props cfg N inv pp s h).1
+
+/-- candidates are ordinary statements (the hypothesis of the key theorems), provided no datatype of
+the data is literally called `NONLITERAL` -/
+theorem candidates_plain (cfg : Config) (N : Nat) (inv : Bool) (pp : PropProfile) (s : Stmt)
+    (h : s ∈ candidates cfg N inv pp) (hnl : s.ty ≠ Gen.NONLITERAL_ELEM_TYPE) : Plain s :=
+  ⟨(candidate_props cfg N inv pp s h).2.2.1, (candidate_props cfg N inv pp s h).2.2.2.2.2, hnl⟩
+
+/-- **never two constraints for the same key**: after the two merge stages the keys
+(property, value class) of one direction are pairwise distinct — for every input list, every
+configuration -/
+theorem keys_nodup (cfg : Config) (l : List Stmt) (hl : ∀ s ∈ l, Plain s) :
+    ((selectValid cfg l).map (keyOf cfg)).Nodup :=
+  selectValid_keys_nodup cfg l hl
+
+/-- **the merge stages neither invent nor lose a key**: a key is present after them iff one of the
+candidates (entries at or above the threshold) has it -/
+theorem keys_exact (cfg : Config) (l : List Stmt) (hl : ∀ s ∈ l, Plain s) (k : String × Spec.VClass) :
+    k ∈ (selectValid cfg l).map (keyOf cfg) ↔ k ∈ l.map (keyOf cfg) :=
+  selectValid_keys cfg l hl k
+
+/-- FULL STATEMENT of the "if and only if" of C02 for non-literal keys: present iff the fraction of
+instances with at least one non-literal value reaches the threshold.  Proved: present iff *some
+candidate of that value class* (IRI kind, BNode kind, or a shape reference) reaches it
+(`keys_exact` + `candidates_exact`); the two differ exactly when the kinds are mixed across
+instances and neither reaches the threshold alone (finding F-C02-1, witness below). -/
+theorem nonliteral_key_iff_some_kind_passes (cfg : Config) (l : List Stmt) (hl : ∀ s ∈ l, Plain s) (p : String)
+    (hp : (p == cfg.instProp) = false) :
+    (p, Spec.VClass.nonliteral) ∈ (selectValid cfg l).map (keyOf cfg) ↔
+      ∃ s ∈ l, s.prop = p ∧ isNodeType s.ty = true := by
+  rw [keys_exact cfg l hl]
+  simp only [List.mem_map]
+  constructor
+  · rintro ⟨s, hs, hk⟩
+    refine ⟨s, hs, ?_⟩
+    unfold keyOf vclassOf at hk
+    have h1 : s.prop = p := (Prod.mk.inj hk).1
+    have h2 := (Prod.mk.inj hk).2
+    rw [h1, hp] at h2
+    obtain ⟨hc, _, hn⟩ := hl s hs
+    have hn' : (s.ty == Gen.NONLITERAL_ELEM_TYPE) = false := by simpa using hn
+    simp only [hc, hn', Bool.false_or, Bool.or_false, Bool.false_eq_true, if_false] at h2
+    refine ⟨h1, ?_⟩
+    by_cases hnt : isNodeType s.ty = true
+    · exact hnt
+    · simp [hnt] at h2
+  · rintro ⟨s, hs, h1, hnt⟩
+    refine ⟨s, hs, ?_⟩
+    unfold keyOf vclassOf
+    rw [h1, hp]
+    simp [hnt]
+
+/-- ¬ full statement (F-C02-1): one instance has an IRI value, the other a blank-node value; at
+threshold 3/5 neither kind (1/2 each) passes although all instances have a non-literal value -/
+theorem fails_at_mixed_kinds :
+    let cfg : Config := { allClasses := true, thNum := 3, thDen := 5 }
+    let T := "http://www.w3.org/1999/02/22-rdf-syntax-ns#type"
+    let g : Graph := [⟨.iri "a", T, .iri "C"⟩, ⟨.iri "b", T, .iri "C"⟩, ⟨.iri "a", "p", .iri "x"⟩, ⟨.iri "b", "p", .bnode "_:y"⟩]
+    (Shexer.run cfg g).map (fun sh => sh.stmts.map (·.prop)) = [[T]]
+    ∧ Spec.keyCount cfg (Spec.selectionOf cfg g) g "C" false "p" Spec.VClass.nonliteral = 2 := by decide
 
 /- non-vacuity: 2 of 3 instances, threshold 2/3 (kept) and 67/100 (dropped) -/
 example : passes { thNum := 2, thDen := 3 } 3 2 = true := by decide
